@@ -32,7 +32,7 @@ Fixpoint last_set (rh : list op) (k : Z) (el : Z) : option (Z * Z * Z) :=
   | ODelete k' :: r => if k' =? k then None else last_set r k el
   | OReset :: _ => None
   | OAdvance d :: r => last_set r k (el + d)
-  | OGet _ :: r | OCleanup :: r | OKeys :: r => last_set r k el
+  | OGet _ :: r | OCleanup :: r | OKeys :: r | OStop :: r => last_set r k el
   end.
 
 (* What Get(k) must return after the history [rh] (newest first). *)
@@ -127,7 +127,7 @@ Definition obs_ok (strict : bool) (maxttl : Z) (rh : list op) (o : op) (r : res)
   | OSet _ _ ttl, RUnit => accepted ttl
   | OSet _ _ ttl, RPanic => negb (accepted ttl)
   | OGet k, RGet g => if strict then get_ok maxttl rh k g else get_sound_ok maxttl rh k g
-  | ODelete _, RUnit | OCleanup, RUnit | OReset, RUnit | OAdvance _, RUnit => true
+  | ODelete _, RUnit | OCleanup, RUnit | OReset, RUnit | OAdvance _, RUnit | OStop, RUnit => true
   | OKeys, RKeys ks => if strict then keys_ok maxttl rh ks else true
   | _, _ => false
   end.
